@@ -560,12 +560,14 @@ inline graph::~graph() {
 }
 
 inline void graph::reserve_wait() {
+    __TBB_VERIF_POINT(vp_fg_wait_release, this, 2);
     my_wait_context_vertex.reserve();
     fgt_reserve_wait(this);
 }
 
 inline void graph::release_wait() {
     fgt_release_wait(this);
+    __TBB_VERIF_POINT(vp_fg_wait_release, this, 1);
     my_wait_context_vertex.release();
 }
 
@@ -1644,6 +1646,7 @@ private:
     graph_task* try_put_task_impl(const T& t __TBB_FLOW_GRAPH_METAINFO_ARG(const message_metainfo& metainfo)) {
         buffer_operation op_data(t, put_item __TBB_FLOW_GRAPH_METAINFO_ARG(metainfo));
         my_aggregator.execute(&op_data);
+        __TBB_VERIF_POINT(vp_fg_forwarder, this, 2);
         graph_task *ft = grab_forwarding_task(op_data);
         // sequencer_nodes can return failure (if an item has been previously inserted)
         // We have to spawn the returned task if our own operation fails.
@@ -2158,6 +2161,7 @@ private:
     threshold_regulator< limiter_node<T, DecrementType>, DecrementType > decrement;
 
     graph_task* decrement_counter( long long delta ) {
+        __TBB_VERIF_POINT(vp_fg_limiter_decrement, this, 0);
         if ( delta > 0 && size_t(delta) > my_threshold ) {
             delta = my_threshold;
         }
@@ -2178,6 +2182,7 @@ private:
             }
             __TBB_ASSERT(my_count <= my_threshold, "counter values are truncated to be inside the [0, threshold] interval");
         }
+        __TBB_VERIF_POINT(vp_fg_limiter_decrement, this, 1);
         return forward_task();
     }
 
@@ -2204,6 +2209,7 @@ private:
                 return nullptr;
         }
 
+        __TBB_VERIF_POINT(vp_fg_limiter_forward, this, 0);
         //SUCCESS
         // if we can reserve and can put, we consume the reservation
         // we increment the count and decrement the tries
@@ -2213,6 +2219,7 @@ private:
         if ( (my_predecessors.try_reserve(v __TBB_FLOW_GRAPH_METAINFO_ARG(metainfo))) == true ) {
             reserved = true;
             if ( (rval = my_successors.try_put_task(v __TBB_FLOW_GRAPH_METAINFO_ARG(metainfo))) != nullptr ) {
+                __TBB_VERIF_POINT(vp_fg_limiter_forward, this, 1);
                 {
                     spin_mutex::scoped_lock lock(my_mutex);
                     ++my_count;
@@ -2240,6 +2247,7 @@ private:
                 return rval;
             }
         }
+        __TBB_VERIF_POINT(vp_fg_limiter_forward, this, 2);
         //FAILURE
         //if we can't reserve, we decrement the tries
         //if we can reserve but can't put, we decrement the tries and release the reservation
@@ -2353,7 +2361,9 @@ private:
                 ++my_tries;
         }
 
+        __TBB_VERIF_POINT(vp_fg_limiter_forward, this, 3);
         graph_task* rtask = my_successors.try_put_task(t __TBB_FLOW_GRAPH_METAINFO_ARG(metainfo));
+        __TBB_VERIF_POINT(vp_fg_limiter_forward, this, 4);
         if ( !rtask ) {  // try_put_task failed.
             spin_mutex::scoped_lock lock(my_mutex);
             --my_tries;
